@@ -172,6 +172,9 @@ def rnd_line(rng):
         pts = pts + [pts[-2]]                       # retraces its last segment
     elif r < 0.3:
         pts = pts + [pts[0]]                        # closed path
+    elif r < 0.45 and len(pts) >= 3:
+        i = rng.randrange(len(pts) - 1)
+        pts = pts + [pts[i], rnd_pt(rng, -1, 5)]    # revisits an earlier vertex, then continues
     out = [pts[0]]
     for p in pts[1:]:
         if p != out[-1]:
@@ -239,7 +242,7 @@ def derive(rng, A):
             return planar.PShape('line', pts=[(min(xs) - F(1, 2), cy), (max(xs) + F(1, 2), cy)])
         return planar.PShape('box', nw=(cx, max(ys) + F(1, 2)), se=(max(xs) + F(1, 2), cy))
     if A.kind == 'line':
-        k = rng.randrange(5)
+        k = rng.choice([0, 1, 2, 2, 2, 3, 4])
         i = rng.randrange(len(A.pts) - 1)
         a, b = A.pts[i], A.pts[i + 1]
         m = ((a[0] + b[0]) / 2, (a[1] + b[1]) / 2)
@@ -247,9 +250,14 @@ def derive(rng, A):
             return planar.PShape('pt', pts=[m])
         if k == 1:
             return planar.PShape('pt', pts=[rng.choice(A.pts)])
-        if k == 2:
-            j = rng.randrange(len(A.pts) - 1)
-            return planar.PShape('line', pts=A.pts[j:j + rng.randint(2, 3)] if len(A.pts[j:j + 3]) >= 2 else A.pts[:2])
+        if k == 2:   # a contiguous sub-path, preferably starting at a *later* visit of a repeated vertex
+            starts = [j for j in range(len(A.pts) - 1) if A.pts[j] in A.pts[:j]] or list(range(len(A.pts) - 1))
+            j = rng.choice(starts) if rng.random() < 0.6 else rng.randrange(len(A.pts) - 1)
+            n = rng.randint(2, 3)
+            sub = A.pts[j:j + n]
+            if rng.random() < 0.2:
+                sub = sub[::-1]                      # reversed: a sub-path of the reversed path only
+            return planar.PShape('line', pts=sub if len(sub) >= 2 else A.pts[:2])
         if k == 3:
             return planar.PShape('line', pts=[m, (m[0] + F(3, 4), m[1] - F(1, 2))])
         return planar.PShape('line', pts=[b, (b[0] + F(1, 2), b[1] + F(1, 4))])
@@ -366,6 +374,26 @@ def check(run):
             if ans[ln].startswith('ERR') or ans[ln] == 'TIMEOUT':
                 run.report(ln.split()[0] + '/raises', f'a valid shape pair raises {ans[ln]}',
                            {'stream': 'shape-pairs', 'line': ln, 'impl': ans[ln], 'spec': 'T or F'})
+
+    # 3b. the same pairs at other scales and places (dyadic scaling / translation keeps the arithmetic of the exact
+    #     model valid; the 1e-10 rounding of the float code must stay inert down to metre-scale shapes)
+    lines2 = []
+    for A, B in rng.sample(cases, min(len(cases), run.scale(150, 2500))):
+        k = rng.choice([4, 8, 12, 16, 20])
+        sc = F(1, 2 ** k)
+        ox, oy = F(rng.randint(-170, 170)), F(rng.randint(-80, 80))
+
+        def mv(S):
+            f = lambda ps: [(ox + x * sc, oy + y * sc) for x, y in ps] if ps else ps  # noqa: E731
+            return planar.PShape(S.kind, raw=f(S.raw), holes=[f(h) for h in S.rawholes], pts=f(S.pts),
+                                 nw=f([S.nw])[0] if S.nw else None, se=f([S.se])[0] if S.se else None)
+        A2, B2 = mv(A), mv(B)
+        for op in ('inter', 'contains'):
+            lines2.append(f'rel.{op} {A2.tokens()} | {B2.tokens()}')
+            lines2.append(f'rel.{op} {B2.tokens()} | {A2.tokens()}')
+    run.run_cases('scaled-and-translated', lines2, impl, spec,
+                  tag=lambda ln, a: ['scaled:' + ln.split()[0] + ':' + (a if a in 'TF' else 'ERR')])
+
 
     return run.finish(
         rule='every ordered pair of grid segments (3x3, exhaustive in the thorough tier); raw sweeps over small edge lists in '
